@@ -33,10 +33,14 @@ func (d *def) sexp() sx.Sexp {
 	}
 	as := make([]sx.Sexp, len(d.attrs))
 	for i, a := range d.attrs {
-		as[i] = sx.L(sx.A(a.name), a.ty.sexp(), sx.A(a.kind), optVal(a.dflt))
+		xs := []sx.Sexp{sx.A(a.name), a.ty.sexp(), sx.A(a.kind), optVal(a.dflt)}
 		if a.override {
-			as[i] = sx.L(sx.A(a.name), a.ty.sexp(), sx.A(a.kind), optVal(a.dflt), sx.A("o"))
+			xs = append(xs, sx.A("o"))
 		}
+		if a.final != "" {
+			xs = append(xs, sx.A(a.final))
+		}
+		as[i] = sx.L(xs...)
 	}
 	eq := sx.A("-")
 	if d.eqKind != "-" {
@@ -45,6 +49,13 @@ func (d *def) sexp() sx.Sexp {
 	ser := sx.A("-")
 	if d.hasSer {
 		ser = atoms("l", d.ser)
+	}
+	if len(d.consts) > 0 {
+		ks := []sx.Sexp{}
+		for _, k := range d.consts {
+			ks = append(ks, sx.L(sx.A(k.name), k.dflt.sexp()))
+		}
+		return sx.L(p, sx.L(as...), eq, sx.A(d.eit), ser, sx.T("k", ks...))
 	}
 	return sx.L(p, sx.L(as...), eq, sx.A(d.eit), ser)
 }
@@ -153,6 +164,12 @@ func genAttr(r *rand.Rand, name string) attr {
 	default:
 		give = r.Intn(5) < 2
 	}
+	switch f := r.Intn(40); {
+	case f < 4:
+		a.final = "f"
+	case f == 4:
+		a.final = "nf" // an error on a constant
+	}
 	if give {
 		v := witness(r, a.ty)
 		if r.Intn(30) == 0 {
@@ -235,6 +252,9 @@ func genChain(r *rand.Rand) []def {
 				}
 				if !dup {
 					a := attr{name: pa.name, ty: pa.ty, kind: pa.kind, dflt: pa.dflt, override: r.Intn(12) != 0}
+					if r.Intn(10) == 0 {
+						a.final = "f"
+					}
 					switch r.Intn(6) {
 					case 0:
 						if pa.ty.k == "opt" {
@@ -263,6 +283,27 @@ func genChain(r *rand.Rand) []def {
 			}
 		} else if len(d.attrs) > 0 && r.Intn(60) == 0 {
 			d.attrs[r.Intn(len(d.attrs))].override = true // nothing to override
+		}
+		if r.Intn(6) == 0 {
+			// constants => {…}: fresh names mostly; sometimes the name of an own attribute (an error) or of an inherited
+			// member (an automatic override: fine for an inherited constant of an accepting type)
+			for k := r.Intn(2) + 1; k > 0 && used < len(namePool); k-- {
+				name := namePool[used]
+				used++
+				if r.Intn(5) == 0 && used > 1 {
+					name = namePool[r.Intn(used-1)]
+				}
+				dup := false
+				for _, x := range d.consts {
+					dup = dup || x.name == name
+				}
+				if dup {
+					continue
+				}
+				v := witness(r, tyAll[r.Intn(3)])
+				t := map[string]string{"i": "int", "s": "str", "b": "bool"}[v.k]
+				d.consts = append(d.consts, attr{name: name, ty: &ty{k: t}, kind: "c", dflt: &v})
+			}
 		}
 		defs = append(defs, d)
 		// equality / serialization need the specification's view of what exists so far
@@ -334,9 +375,7 @@ func genChain(r *rand.Rand) []def {
 			allNames = append(allNames, "zz")
 			dd.hasSer = true
 			for k := r.Intn(4); k > 0; k-- {
-				if n := allNames[r.Intn(len(allNames))]; !repeats(append(append([]string{}, dd.ser...), n)) {
-					dd.ser = append(dd.ser, n)
-				}
+				dd.ser = append(dd.ser, allNames[r.Intn(len(allNames))]) // repeats included
 			}
 		}
 		_ = settable
@@ -559,10 +598,87 @@ func exhaustive(g *core.G) {
 	}
 }
 
+// every two-level chain: parent attribute `a` from the 6 shapes with equality absent / on `a`, child attribute `b` from the
+// 6 shapes (or none) with equality absent / on `b`, include-type absent / false on both; objects of the child that
+// differ from a base tuple in exactly one position (so that every equality attribute, inherited or own, at whatever
+// position the layout gives it, decides at least one comparison), their named twins, the required-only forms, and
+// objects of the parent
+func exhaustive2(g *core.G) {
+	tInt := &ty{k: "int"}
+	tOpt := &ty{k: "opt", elt: tInt}
+	shapes := func(n string) []attr {
+		return []attr{
+			{name: n, ty: tInt, kind: "n"},
+			{name: n, ty: tInt, kind: "n", dflt: iv(1)},
+			{name: n, ty: tOpt, kind: "n"},
+			{name: n, ty: tInt, kind: "g"},
+			{name: n, ty: tInt, kind: "c", dflt: iv(7)},
+			{name: n, ty: tInt, kind: "d"},
+		}
+	}
+	for _, a := range shapes("a") {
+		for _, peq := range []string{"-", "s"} {
+			for bi, b := range append([]attr{{}}, shapes("b")...) {
+				for _, ceq := range []string{"-", "s"} {
+					if ceq == "s" && bi == 0 {
+						continue
+					}
+					for _, eit := range []string{"-", "f"} {
+						p := def{parent: -1, attrs: []attr{a}, eqKind: peq, eit: eit}
+						if peq == "s" {
+							p.eq = []string{"a"}
+						}
+						c := def{parent: 0, eqKind: ceq, eit: eit}
+						if bi > 0 {
+							c.attrs = []attr{b}
+						}
+						if ceq == "s" {
+							c.eq = []string{"b"}
+						}
+						defs := []def{p, c}
+						s := mkSpec(defs)
+						var acts []action
+						for t := 1; t >= 0; t-- {
+							pos := s.pos[t]
+							base := make([]val, len(pos))
+							var names []string
+							for i, q := range pos {
+								base[i] = val{k: "i", i: int64(2 + i)}
+								names = append(names, q.name)
+							}
+							acts = append(acts, action{op: "newpos", t: t, vals: base},
+								action{op: "newnamed", t: t, names: names, vals: base},
+								action{op: "newpos", t: t, vals: base[:s.req[t]]})
+							for j := range pos {
+								v := append([]val{}, base...)
+								v[j] = val{k: "i", i: 9}
+								acts = append(acts, action{op: "newpos", t: t, vals: v})
+							}
+						}
+						n := 0
+						for _, x := range acts {
+							if x.op == "newpos" || x.op == "newnamed" {
+								n++
+							}
+						}
+						for o := 1; o < n; o++ {
+							acts = append(acts, action{op: "eq", o: 0, o2: o})
+						}
+						acts = append(acts, action{op: "inithash", o: 0}, action{op: "inst", t: 0, o: 0}, action{op: "inst", t: 1, o: n - 1})
+						g.Emit(opLine(defs, acts))
+					}
+				}
+			}
+		}
+	}
+}
+
 // ---- entry --------------------------------------------------------------------------------------------------------------------
 
 func gen(g *core.G) {
 	exhaustive(g)
+	exhaustive2(g)
+	genTParam(g)
 	chains, perChain, tuples := 300, 4, 5
 	if g.Thorough() {
 		chains, perChain = 10000, 2
